@@ -236,3 +236,28 @@ func VerifRenderSchedule() {
 	}
 	vReach("end")
 }
+
+// renderPixel from any register state (any LCDC bits, any window position, 8x16 flag, background off): used by
+// C11 for its implicit failure sites only (index arithmetic into VRAM, palettes, the frame buffer)
+func VerifPixelNoCrash() {
+	l := newVerifLCD()
+	p := l.p
+	frame := p.frame
+	vHavoc("ppu", p)
+	p.frame = frame
+	vHavoc("pix", frame.Pix)
+	vHavoc("oam", l.o)
+	vAssume(!p.debug)
+	vAssume(p.VerifPaletteInv())
+	x := vU8("x")
+	y := vU8("y")
+	vAssume(x < 160 && y < 144)
+	lo, n := vCfg("lo"), vCfg("n")
+	for i := 0; i < 40; i++ {
+		if i < lo || i >= lo+n {
+			vAssume(!p.spriteOverlaps[i])
+		}
+	}
+	p.renderPixel(x, y)
+	vReach("end")
+}
